@@ -89,7 +89,16 @@ def run(ctx):
         fb = build.xcp(fallback=True)
         fjobs = []
         for i, sc in enumerate(rnd.sample([s for s in scs if s["kcopy"] == "cfr"], 60 if quick else 600)):
-            fjobs.append((dict(sc, id="FB-" + sc["id"]), dict(run_id="f%d" % i, workers=2, cell=1 if len(sc["salloc"]) == sc["len"] else 4096)))
+            rr = rng("C05fb", sc["id"])
+            cell = 1 if len(sc["salloc"]) == sc["len"] else 4096
+            lab = "pread" if sc["driver"] == "parblock" else "read"
+            plan = rr.choice([None, [lab + ".max=1"], [lab + ".rand=%d" % rr.randint(1, 10 ** 6)], [lab + ".max=%d" % (cell + 1)], [lab + ".nth=2:1"]])
+            fjobs.append((dict(sc, id="FB-" + sc["id"]), dict(run_id="f%d" % i, workers=rr.choice([1, 2, 4]), cell=cell, plan=plan)))
+        for size, bs, w in ((70000, 1000, 4), (200000, 4096, 8)):
+            for drv in ("parfile", "parblock"):
+                for rep in range(2):
+                    sc = dataprop.dense("FB-big-%s-%d-%d-r%d" % (drv, size, bs, rep), size, bs, drv, reflink="auto")
+                    fjobs.append((sc, dict(run_id="fb%d%s%d" % (size, drv, rep), cell=1, block_bytes=bs, workers=w, plan=[["pread.max=300", "read.max=300"], None][rep])))
         before = ctx.traces
         obs, _ = dataprop.run_jobs(ctx, fb, fjobs, {"EXACT": True}, lambda sc, kw, o: True)
         ctx.notes["fallback_backend_runs"] = ctx.traces - before
